@@ -281,7 +281,8 @@ def miri_exec_engine(prop, tier, seed):
            "wall_s": round(time.time() - t0, 1),
            "what_is_real": "all of /repo that the simulated target compiles (i686: fixslice32 unmodified; x86_64: autodetect soft arm, Kuznyechik compact_soft; x86_64-ni: the AES-NI arm with detection granted and _mm_aeskeygenassist_si128 redirected to the model; aarch64: aes/src/armv8* and kuznyechik/src/neon/* with exactly five intrinsics redirected to sim/models/verif_neon_model.rs, everything else unmodified). stub: CPUID/hwcap (the simulator decides: 'no AES' as upstream does under Miri, or granted on aarch64), five aarch64 intrinsics",
            "aarch64_detection_granted_runs": sum(1 for r in results if r["target"] == "aarch64" and r.get("grant")),
-           "per_target_ok": {t: sum(1 for r in results if r["target"] == t and r.get("status") == "ok") for t in targets}}
+           "per_target_ok": {t: sum(1 for r in results if r["target"] == t and r.get("status") == "ok") for t in targets},
+           "slowest_jobs": [f"{os.path.basename(r['file'])}@{r['target']}: {r['wall']:.0f}s" for r in sorted(results, key=lambda r: -r["wall"])[:5]]}
     viols, notes, herr = [], [], []
     for r in results:
         st = r.get("status")
